@@ -955,6 +955,16 @@ class World:
                 def raw(t, **kwargs):
                     return run.body()
 
+        elif fs.get("async") and fs.get("offload"):
+            # an ``async def`` layer (functools.wraps) around a plain function - what an "off-load to an executor" decorator produces;
+            # the contracts are stacked on the async layer
+            def inner(t):
+                return run.body()
+
+            inner.__name__ = name
+            inner.__qualname__ = fs.get("qualname", name)
+            run.idmap[id(inner)] = name
+            raw = _async_layer(inner)
         elif fs.get("async"):
 
             async def raw(t):
@@ -966,7 +976,7 @@ class World:
                 return run.body()
 
         raw.__name__ = name
-        raw.__qualname__ = name
+        raw.__qualname__ = fs.get("qualname", name)  # (functions produced by one factory share a qualified name)
         run.idmap[id(raw)] = name
         return self._decorate(raw, name, fs)
 
@@ -1046,7 +1056,16 @@ class World:
                 fset = self._decorate(fset, owner + ".set", ms["setter"], params=("self", "value"))
             return property(g, fset)
         if kind == "method":
-            if ms.get("async"):
+            if ms.get("async") and ms.get("offload"):
+
+                def inner(self, t):
+                    return run.body(self)
+
+                inner.__name__ = name
+                inner.__qualname__ = "%s.%s" % (getattr(self, "_cur_pyname", None) or cname, name)
+                run.idmap[id(inner)] = owner
+                raw = _async_layer(inner)
+            elif ms.get("async"):
 
                 async def raw(self, t):
                     return await run.abody(self)
@@ -1368,6 +1387,17 @@ class _Awaitable:
 
     def __await__(self):
         return self._c.__await__()
+
+
+def _async_layer(f):
+    """An ``async def`` wrapper (functools.wraps) around a plain function."""
+    import functools
+
+    @functools.wraps(f)
+    async def layer(*a, **k):
+        return f(*a, **k)
+
+    return layer
 
 
 def _foreign_wraps(f):
